@@ -32,4 +32,99 @@ theorem foldl_count (D : List String) (k : String) :
       | zero => simp
       | succ n => simp; omega
 
+
+/-! ### the concept report: counts add up -/
+
+theorem countFold_get (q : String) : ∀ (ws : List String) (m : List (String × Nat)),
+    GoMap.get? (ws.foldl (fun m w => GoMap.set m w ((GoMap.get? m w).getD 0 + 1)) m) q
+      = if ws.count q = 0 then GoMap.get? m q else some ((GoMap.get? m q).getD 0 + ws.count q) := by
+  intro ws
+  induction ws with
+  | nil => intro m; simp
+  | cons w rest ih =>
+    intro m
+    rw [List.foldl_cons, ih, List.count_cons]
+    cases hq : (w == q)
+    · simp only [GoMap.get?_set, hq, Bool.false_eq_true, if_false, Nat.add_zero]
+    · have e : w = q := by simpa using hq
+      subst e
+      simp only [GoMap.get?_set, beq_self_eq_true, if_true, Option.getD_some]
+      cases hc : List.count w rest with
+      | zero => simp
+      | succ n => simp; omega
+
+theorem countWords_get (ws : List String) (q : String) :
+    GoMap.get? (countWords ws) q = if ws.count q = 0 then none else some (ws.count q) := by
+  have := countFold_get q ws []
+  simpa [countWords, GoMap.get?] using this
+
+theorem removeStop_get (S : List String) : ∀ (m : List (String × Nat)) (q : String),
+    GoMap.get? (S.foldl GoMap.erase m) q = if S.contains q then none else GoMap.get? m q := by
+  induction S with
+  | nil => intro m q; simp
+  | cons k S ih =>
+    intro m q
+    rw [List.foldl_cons, ih, GoMap.get?_erase, List.contains_cons]
+    have hsym : (q == k) = (k == q) := by
+      by_cases h : q = k
+      · subst h; rfl
+      · rw [beq_false_of_ne h, beq_false_of_ne (fun e => h e.symm)]
+    rw [hsym]
+    cases hs : S.contains q <;> cases hk : (k == q) <;>
+      simp only [Bool.or_false, Bool.or_true, Bool.false_eq_true, if_true, if_false]
+
+theorem removeStop_keys (S : List String) : ∀ (m : List (String × Nat)),
+    GoMap.keys (S.foldl GoMap.erase m) = (GoMap.keys m).filter fun q => !S.contains q := by
+  induction S with
+  | nil =>
+    intro m
+    simp only [List.foldl_nil, List.contains_nil, Bool.not_false]
+    exact (List.filter_eq_self.mpr (fun _ _ => rfl)).symm
+  | cons k S ih =>
+    intro m
+    rw [List.foldl_cons, ih, GoMap.keys_erase, List.filter_filter]
+    apply List.filter_congr
+    intro q _
+    simp only [List.contains_cons]
+    cases hs : S.contains q <;> cases hk : (q == k) <;> simp
+
+/-- over a duplicate-free list of words, the occurrence counts add up to the number of occurrences of those words -/
+theorem sum_count_nodup (D : List String) (hD : D.Nodup) : ∀ (ws : List String),
+    (D.map fun q => ws.count q).sum = (ws.filter fun w => D.contains w).length := by
+  intro ws
+  induction ws with
+  | nil =>
+    simp only [List.count_nil, List.filter_nil, List.length_nil]
+    clear hD
+    induction D with
+    | nil => rfl
+    | cons d D ihd => simp only [List.map_cons, List.sum_cons, ihd]
+  | cons w ws ih =>
+    simp only [List.count_cons, List.filter_cons]
+    have hsplit : (D.map fun q => List.count q ws + if (w == q) = true then 1 else 0).sum
+        = (D.map fun q => List.count q ws).sum + (D.map fun q => if (w == q) = true then 1 else 0).sum := by
+      clear ih hD
+      induction D with
+      | nil => rfl
+      | cons d D ihd => simp only [List.map_cons, List.sum_cons, ihd]; omega
+    have hone : (D.map fun q => if (w == q) = true then 1 else 0).sum = if D.contains w then 1 else 0 := by
+      clear ih hsplit
+      induction D with
+      | nil => rfl
+      | cons d D ihd =>
+        rw [List.nodup_cons] at hD
+        simp only [List.map_cons, List.sum_cons, List.contains_cons, ihd hD.2]
+        cases hwd : (w == d)
+        · simp
+        · have e : w = d := by simpa using hwd
+          subst e
+          have hn : D.contains w = false := by
+            cases hh : D.contains w
+            · rfl
+            · exact absurd (List.contains_iff_mem.mp hh) hD.1
+          rw [hn]
+          simp only [beq_self_eq_true, if_true, Bool.true_or, Bool.false_eq_true, if_false]
+    rw [hsplit, hone, ih]
+    cases D.contains w <;> simp
+
 end CocaVerif.Stats
